@@ -367,11 +367,41 @@ def _current_token_exists(F, fn, bb):
             parent, cb, ct = use
             if is_callee(ct, "std::option::Option::<T>::and_then", "std::option::Option::<T>::map"):
                 if any(d[0] == "call" and is_callee(parent.term(d[1]), "frontend::parser::Parser::<'a>::current") for d, _ in origins(parent, ct["args"][0])):
-                    return True
+                    return not _advances_between(fn, 0, bb)
     for b2, t2 in fn.calls():
         if is_callee(t2, "frontend::parser::Parser::<'a>::current_matches"):
             e = _bool_edges(fn, b2)
             if e and _dominated_by_edge(fn, bb, e[0], e[2]):
+                return not _advances_between(fn, e[2], bb)
+    # form C: dominated by the Some edge of a switch on the result of current()
+    for sb in range(len(fn.blocks)):
+        sw = tables.arms_complete(fn, sb)
+        if not sw or "Some" not in sw[2]:
+            continue
+        if not any(d[0] == "call" and is_callee(fn.term(d[1]), "frontend::parser::Parser::<'a>::current")
+                   for d, _ in origins(fn, {"copy": {"l": sw[0]["l"], "p": []}})):
+            continue
+        tg = sw[2]["Some"]
+        if tg == bb or _dominated_by_edge(fn, bb, sb, tg):
+            return not _advances_between(fn, tg, bb)
+    return False
+
+
+def _advances_between(fn, start, bb):
+    """may the token stream advance on a path from block `start` to the call at block bb?  A call advances when it is handed a
+    mutable borrow of the parser or of one of its lexers (current / new_parse_error / current_matches take &self)."""
+    on_path = {b for b in fn.reachable(start, avoid=(bb,)) if bb in fn.reachable_from_succs(b) or bb in fn.succs()[b]}
+    for b in on_path:
+        t = fn.term(b)
+        if t["k"] != "call":
+            continue
+        for a in t["args"]:
+            pl = op_place(a)
+            if not pl:
+                continue
+            ty = fn.local_ty(pl["l"])
+            s_ = getattr(ty, "s", "") or ""
+            if s_.startswith("&mut ") and any(k in s_ for k in ("frontend::parser::Parser", "frontend::lexer::CommentSkippingLexer", "frontend::lexer::Lexer")):
                 return True
     return False
 
